@@ -1,6 +1,8 @@
 package main
 
 import (
+	"go/types"
+	"go/token"
 	"fmt"
 	"regexp"
 	"sort"
@@ -29,6 +31,7 @@ func elemRoots(v ssa.Value) []ssa.Value {
 			}
 			break
 		}
+		base = throughCopies(base)
 		switch base.(type) {
 		case *ssa.Alloc, *ssa.IndexAddr:
 			if !seen[base] {
@@ -39,6 +42,42 @@ func elemRoots(v ssa.Value) []ssa.Value {
 		return true
 	})
 	return out
+}
+
+// throughCopies: a local that only ever holds a copy of (a field of) another object stands for that object
+// (`input := tx.Input` still speaks about tx).
+func throughCopies(base ssa.Value) ssa.Value {
+	for i := 0; i < 6; i++ {
+		a, ok := base.(*ssa.Alloc)
+		if !ok || a.Referrers() == nil {
+			return base
+		}
+		var src ssa.Value
+		n := 0
+		for _, rf := range *a.Referrers() {
+			if st, ok := rf.(*ssa.Store); ok && st.Addr == a {
+				n++
+				if u, ok := st.Val.(*ssa.UnOp); ok && u.Op == token.MUL {
+					x := u.X
+					for {
+						if fa, ok := x.(*ssa.FieldAddr); ok {
+							x = fa.X
+							continue
+						}
+						break
+					}
+					if x != u.X {
+						src = x
+					}
+				}
+			}
+		}
+		if n != 1 || src == nil {
+			return base
+		}
+		base = src
+	}
+	return base
 }
 
 var fromRe = regexp.MustCompile(`(?i)\bFROM\s+["` + "`" + `]?([A-Za-z_][A-Za-z0-9_]*)`)
@@ -72,7 +111,7 @@ func propC07(c *Ctx, r *Report) {
 		r.check(bad == "", "C07-R1/hold-conversions", fmt.Sprintf("ApplyTransactionBlock with HasConversions=%v", hc), c.pos(atb.Pos()), map[bool]string{true: "held only", false: "applied immediately with nil rates"}[hc], bad)
 	}
 	// the holding row records the arrival height of the entry block
-	for _, ci := range findCalls(atb, "pegnet.(*Pegnet).InsertTransactionBatchHolding") {
+	for _, ci := range findCalls(atb, "pegnet.Pegnet.InsertTransactionBatchHolding") {
 		hp := typePath(unwrapConv(ci.Common().Args[3]))
 		r.check(hp == "factom.EBlock.Height", "C07-R1/hold-conversions", "holding row records the entry block's height", c.ipos(ci), "", "holding height is "+hp+valuePath(ci.Common().Args[3]))
 	}
@@ -80,7 +119,7 @@ func propC07(c *Ctx, r *Report) {
 	// R2
 	r.rule("C07-R2/rates-of-own-block", 3, "held conversions execute at the rates recorded for the executing block")
 	sb := c.fn("node.Pegnetd.SyncBlock")
-	for _, ci := range findCalls(sb, "node.(*Pegnetd).ApplyTransactionBatchesInHolding") {
+	for _, ci := range findCalls(sb, "node.Pegnetd.ApplyTransactionBatchesInHolding") {
 		calls := sliceCalls(ci.Common().Args[4])
 		var names []string
 		for n := range calls {
@@ -89,7 +128,7 @@ func propC07(c *Ctx, r *Report) {
 		sort.Strings(names)
 		okOwn := false
 		for _, pc := range calls["SelectPendingRates"] {
-			if p, ok := pc.Call.Args[3].(*ssa.Parameter); ok && p.Name() == "height" || valuePath(pc.Call.Args[3]) == "height" {
+			if c.isExecHeight(pc.Call.Args[3]) {
 				okOwn = true
 			}
 		}
@@ -100,7 +139,7 @@ func propC07(c *Ctx, r *Report) {
 			}
 		}
 		r.check(okOwn && len(others) == 0, "C07-R2/rates-of-own-block", "rates argument of the holding executor", c.ipos(ci), "defined by SelectPendingRates(height); other reaching definitions (snapshot fallbacks, taken only when the block has no rates): "+strings.Join(names, ","), fmt.Sprintf("own-height read present=%v, unexpected rate sources: %v", okOwn, others))
-		r.check(valuePath(ci.Common().Args[3]) == "height", "C07-R2/rates-of-own-block", "holding executor runs for the block's height", c.ipos(ci), "", "height argument is "+valuePath(ci.Common().Args[3]))
+		r.check(c.isExecHeight(ci.Common().Args[3]), "C07-R2/rates-of-own-block", "holding executor runs for the block's height", c.ipos(ci), "", "height argument is "+c.describeOrigin(ci.Common().Args[3]))
 	}
 	for _, fn := range []string{"pegnet.Pegnet.SelectPendingRates", "pegnet.Pegnet.SelectMostRecentRatesBeforeHeight", "pegnet.Pegnet.SelectRates"} {
 		f := c.fn(fn)
@@ -116,70 +155,8 @@ func propC07(c *Ctx, r *Report) {
 		}
 	}
 
-	// R3 window and averages
-	r.rule("C07-R3/holding-window", 3, "held batches of [last rated height, current) with that height's averages")
-	hold := c.fn("node.Pegnetd.ApplyTransactionBatchesInHolding")
-	mr := findCalls(hold, "pegnet.(*Pegnet).SelectMostRecentRatesBeforeHeight")
-	if len(mr) != 1 {
-		r.viol("C07-R3/holding-window", "last rated height", c.pos(hold.Pos()), fmt.Sprintf("%d calls to SelectMostRecentRatesBeforeHeight", len(mr)))
-	} else {
-		call := mr[0].(*ssa.Call)
-		r.check(valuePath(call.Call.Args[3]) == "currentHeight", "C07-R3/holding-window", "last rated height is searched below currentHeight", c.ipos(call), "", "argument is "+valuePath(call.Call.Args[3]))
-		var hres ssa.Value
-		for _, rf := range *call.Referrers() {
-			if ex, ok := rf.(*ssa.Extract); ok && ex.Index == 1 {
-				hres = ex
-			}
-		}
-		for _, ci := range findCalls(hold, "node.(*Pegnetd).GetPegNetRateAverages") {
-			r.check(ci.Common().Args[2] == hres, "C07-R3/holding-window", "averages computed for the last rated height", c.ipos(ci), "", "GetPegNetRateAverages is given another height")
-		}
-		for _, ci := range findCalls(hold, "pegnet.(*Pegnet).SelectTransactionBatchesInHoldingAtHeight") {
-			iv := unwrapConv(ci.Common().Args[1])
-			ph, _ := iv.(*ssa.Phi)
-			okk := false
-			if ph != nil {
-				init, step := false, false
-				for _, ed := range ph.Edges {
-					if ed == hres {
-						init = true
-					}
-					if bo, ok := ed.(*ssa.BinOp); ok && bo.Op.String() == "+" && bo.X == ph {
-						if k, ok := bo.Y.(*ssa.Const); ok && k.Int64() == 1 {
-							step = true
-						}
-					}
-				}
-				cond, _, _ := condEdge(ph.Block())
-				bound := false
-				if bo, ok := cond.(*ssa.BinOp); ok && bo.Op.String() == "<" && bo.X == ph && valuePath(bo.Y) == "currentHeight" {
-					bound = true
-				}
-				okk = init && step && bound
-			}
-			r.check(okk, "C07-R3/holding-window", "holding scanned for i = lastRated; i < currentHeight; i++", c.ipos(ci), "", "the holding window is not [last rated height, currentHeight) stepped by 1")
-		}
-	}
-
-	// the averages do not depend on the era: the consumer (Convert) applies the PIP-10 gate with the executing height
-	r.rule("C07-R3/averages-era-free", 1, "GetPegNetRateAverages reads no activation constant")
-	{
-		g := c.fn("node.Pegnetd.GetPegNetRateAverages")
-		var bad []string
-		for f := range c.reach(g) {
-			if f != g && f.Parent() != g {
-				continue
-			}
-			allInstrs(f, func(ins ssa.Instruction) {
-				if u, ok := ins.(*ssa.UnOp); ok {
-					if gl, ok := u.X.(*ssa.Global); ok && gl.Pkg.Pkg.Name() == "config" {
-						bad = append(bad, fmt.Sprintf("%s reads config.%s at %s", fname(f), gl.Name(), c.ipos(ins)))
-					}
-				}
-			})
-		}
-		r.check(len(bad) == 0, "C07-R3/averages-era-free", "GetPegNetRateAverages", c.pos(g.Pos()), "", strings.Join(bad, "; ")+": the averages are requested for the previous rated height while Convert gates PIP-10 on the executing height, so an era test inside the averages makes the first block after an activation see empty averages")
-	}
+	ruleHoldingWindow(c, r, "C07-R3/holding-window")
+	ruleAveragesEraFree(c, r, "C07-R3/averages-era-free")
 
 	r.rule("C07-R3/no-carried-state", 1, "the holding executor's window and rates come from the database")
 	ruleNoCarriedReads(c, newSharedAnalysis(c), r, "C07-R3/no-carried-state", reachOf(c, "node.Pegnetd.ApplyTransactionBatchesInHolding"), carriedAllowedAverages, "the holding executor")
@@ -196,7 +173,7 @@ func propC07(c *Ctx, r *Report) {
 			for _, tr := range rel {
 				fr, tr := fr, tr
 				sc := &Scenario{
-					Params: map[string]AVal{"height": hconst(h), "amount": sym("amount"), "fromRate": sym("fromRate"), "fromAvg": sym("fromAvg"), "toRate": sym("toRate"), "toAvg": sym("toAvg")},
+					Params: map[string]AVal{"type:uint32": hconst(h), "type:int64": sym("amount"), "type:uint64#0": sym("fromRate"), "type:uint64#1": sym("fromAvg"), "type:uint64#2": sym("toRate"), "type:uint64#3": sym("toAvg")},
 					Order: func(a, b AVal) (int, bool) {
 						if a.K == ASym && b.isConst() {
 							return 1, true // every symbol is positive (non-zero, amount >= 0 handled separately)
@@ -216,7 +193,7 @@ func propC07(c *Ctx, r *Report) {
 				t := newSCCP(c, sc).analyse(cv, nil)
 				r.Scen++
 				var setu []string
-				for _, lc := range t.CallsTo("math/big.(*Int).SetUint64") {
+				for _, lc := range t.CallsTo("math/big.Int.SetUint64") {
 					setu = append(setu, lc.Args[1].String())
 				}
 				wantS, wantD := "$fromRate", "$toRate"
@@ -237,7 +214,7 @@ func propC07(c *Ctx, r *Report) {
 	}
 	// negative amount rejected
 	{
-		sc := &Scenario{Params: map[string]AVal{"amount": cInt(-1), "fromRate": cUint(5), "toRate": cUint(5), "fromAvg": cUint(5), "toAvg": cUint(5), "height": hconst(pip)}, MaxDepth: 0}
+		sc := &Scenario{Params: map[string]AVal{"type:int64": cInt(-1), "type:uint64#0": cUint(5), "type:uint64#2": cUint(5), "type:uint64#1": cUint(5), "type:uint64#3": cUint(5), "type:uint32": hconst(pip)}, MaxDepth: 0}
 		st := newSCCP(c, sc).run(cv, nil, 0)
 		r.Scen++
 		got := strings.Join(errorReturns(st), "|")
@@ -247,8 +224,8 @@ func propC07(c *Ctx, r *Report) {
 	// R5 multiply before divide, overflow rejected
 	r.rule("C07-R5/mul-then-div", 1, "result = Div(Mul(amount, source), destination) with overflow test")
 	{
-		muls := findCalls(cv, "math/big.(*Int).Mul")
-		divs := findCalls(cv, "math/big.(*Int).Div")
+		muls := findCalls(cv, "math/big.Int.Mul")
+		divs := findCalls(cv, "math/big.Int.Div")
 		var bad []string
 		if len(muls) != 1 || len(divs) != 1 {
 			bad = append(bad, fmt.Sprintf("%d Mul and %d Div calls", len(muls), len(divs)))
@@ -260,32 +237,46 @@ func propC07(c *Ctx, r *Report) {
 			if div.Call.Args[1] != ssa.Value(mul) {
 				bad = append(bad, "the dividend is not the product")
 			}
-			srcOf := func(v ssa.Value) string {
-				s := ""
-				backSlice(v, func(x ssa.Value) bool {
-					if ph, ok := x.(*ssa.Phi); ok && ph.Comment != "" {
-						s = ph.Comment
+			// by data flow, not by names: the multiplier derives from the source-side parameters (from rate/average) only,
+			// the divisor from the destination-side parameters only, the multiplicand from the amount
+			var u64s []*ssa.Parameter
+			var amt *ssa.Parameter
+			for _, p := range cv.Params {
+				if b, ok := p.Type().Underlying().(*types.Basic); ok {
+					switch b.Kind() {
+					case types.Uint64:
+						u64s = append(u64s, p)
+					case types.Int64:
+						amt = p
 					}
-					if p, ok := x.(*ssa.Parameter); ok && s == "" {
-						s = p.Name()
-					}
-					return true
-				})
-				return s
+				}
 			}
-			amtOK := sliceHas(mul.Call.Args[1], func(v ssa.Value) bool { p, ok := v.(*ssa.Parameter); return ok && p.Name() == "amount" })
-			if !amtOK {
-				bad = append(bad, "the multiplicand is not the amount")
-			}
-			if s := srcOf(mul.Call.Args[2]); s != "RateSource" {
-				bad = append(bad, "the multiplier is "+s+", expected the source rate")
-			}
-			if s := srcOf(div.Call.Args[2]); s != "RateDest" {
-				bad = append(bad, "the divisor is "+s+", expected the destination rate")
+			if len(u64s) != 4 || amt == nil {
+				bad = append(bad, "Convert no longer takes (height, amount int64, four uint64 rates)")
+			} else {
+				uses := func(v ssa.Value, ps ...*ssa.Parameter) bool {
+					return sliceHas(v, func(x ssa.Value) bool {
+						for _, p := range ps {
+							if x == ssa.Value(p) {
+								return true
+							}
+						}
+						return false
+					})
+				}
+				if !uses(mul.Call.Args[1], amt) {
+					bad = append(bad, "the multiplicand is not the amount")
+				}
+				if m := mul.Call.Args[2]; !uses(m, u64s[0], u64s[1]) || uses(m, u64s[2], u64s[3]) {
+					bad = append(bad, "the multiplier does not derive from the source rate/average only")
+				}
+				if d := div.Call.Args[2]; !uses(d, u64s[2], u64s[3]) || uses(d, u64s[0], u64s[1]) {
+					bad = append(bad, "the divisor does not derive from the destination rate/average only")
+				}
 			}
 			// IsInt64 gate before Int64
-			gate := findCalls(cv, "math/big.(*Int).IsInt64")
-			i64 := findCalls(cv, "math/big.(*Int).Int64")
+			gate := findCalls(cv, "math/big.Int.IsInt64")
+			i64 := findCalls(cv, "math/big.Int.Int64")
 			if len(gate) != 1 || len(i64) != 1 || !instrDominates(gate[0], i64[0]) {
 				bad = append(bad, "Int64() is not preceded by an IsInt64() test")
 			} else {
@@ -308,39 +299,106 @@ func propC07(c *Ctx, r *Report) {
 		r.check(len(bad) == 0, "C07-R5/mul-then-div", "Convert arithmetic", c.pos(cv.Pos()), "", strings.Join(bad, "; "))
 	}
 
-	// R6 call sites
+	// R6 call sites (decided by types, data flow and origins - not by the names of locals or parameters)
 	r.rule("C07-R6/convert-call-sites", 5, "Convert is called with the executing height and inputs of one transaction")
+	lookupOf := func(v ssa.Value) *ssa.Lookup {
+		switch x := v.(type) {
+		case *ssa.Lookup:
+			return x
+		case *ssa.Extract:
+			if lk, ok := x.Tuple.(*ssa.Lookup); ok && x.Index == 0 {
+				return lk
+			}
+		}
+		return nil
+	}
+	mapOrigins := func(m ssa.Value) string {
+		var parts []string
+		for _, l := range c.originLeaves(m, c.RSync) {
+			switch y := l.(type) {
+			case *ssa.Const:
+				parts = append(parts, "nil")
+			case *ssa.TypeAssert:
+				if call, ok := y.X.(*ssa.Call); ok {
+					parts = append(parts, shortCallee(call.Common()))
+					continue
+				}
+				parts = append(parts, "?")
+			case *ssa.Extract:
+				if call, ok := y.Tuple.(*ssa.Call); ok {
+					parts = append(parts, shortCallee(call.Common()))
+					continue
+				}
+				parts = append(parts, "?")
+			case *ssa.Call:
+				parts = append(parts, shortCallee(y.Common()))
+			case *ssa.MakeMap:
+				parts = append(parts, "make")
+			default:
+				parts = append(parts, "?")
+			}
+		}
+		sort.Strings(parts)
+		return strings.Join(dedupStrings(parts), ",")
+	}
+	refund := c.fn("conversions.Refund")
 	for _, f := range sortedFuncs(c.RSync) {
 		ordn := newOrdinals()
 		for _, ci := range findCalls(f, "conversions.Convert") {
 			a := ci.Common().Args
 			cons := fmt.Sprintf("%s -> Convert %s", fname(f), ord(ordn.next("c")))
-			hp := valuePath(a[0])
-			okH := hp == "currentHeight" || hp == "height"
-			if f == c.fn("conversions.Refund") {
-				okH = hp == "height"
-			}
 			var bad []string
-			if !okH {
-				bad = append(bad, "height argument is "+hp+a[0].String())
+			if !c.isExecHeight(a[0]) {
+				bad = append(bad, "the height argument is not the executing height but "+c.describeOrigin(a[0]))
 			}
-			if fname(f) == "node.(*Pegnetd).SnapshotPayouts" || fname(f) == "conversions.Refund" {
-				r.check(len(bad) == 0, "C07-R6/convert-call-sites", cons, c.ipos(ci), "executing height", strings.Join(bad, "; "))
+			if f == refund {
+				// Refund converts the PEG yield back at the rates it was given
+				for i := 2; i <= 5; i++ {
+					if ownParam(a[i], f) < 0 {
+						bad = append(bad, fmt.Sprintf("rate argument %d is not one of Refund's own parameters", i+1))
+					}
+				}
+				r.check(len(bad) == 0, "C07-R6/convert-call-sites", cons, c.ipos(ci), "executing height, own parameters", strings.Join(bad, "; "))
+				continue
+			}
+			var lks [4]*ssa.Lookup
+			for i := range lks {
+				lks[i] = lookupOf(a[2+i])
+			}
+			if lks[0] == nil || lks[1] == nil || lks[2] == nil || lks[3] == nil {
+				r.viol("C07-R6/convert-call-sites", cons, c.ipos(ci), "a rate argument is not read from a rate map")
+				continue
+			}
+			if typePath(unwrapConv(a[1])) != "fat2.TypedAddressAmountTuple.Amount" {
+				// valuation of a balance (snapshot payouts): one rate map, source = rates[i] twice, destination = rates[k] twice
+				same := unwrap(lks[0].X) == unwrap(lks[1].X) && unwrap(lks[1].X) == unwrap(lks[2].X) && unwrap(lks[2].X) == unwrap(lks[3].X)
+				if !same || lks[0].Index != lks[1].Index || !sameConstOrValue(lks[2].Index, lks[3].Index) {
+					bad = append(bad, "a valuation must read source rate and average, destination rate and average pairwise from the same entry of one map")
+				}
+				r.check(len(bad) == 0, "C07-R6/convert-call-sites", cons, c.ipos(ci), "executing height; spot rates on both sides", strings.Join(bad, "; "))
 				continue
 			}
 			// transaction conversions: lookups keyed by fields of the same transaction
-			wantKeys := []string{"rates[fat2.TypedAddressAmountTuple.Type]", "averages[fat2.TypedAddressAmountTuple.Type]", "rates[fat2.Transaction.Conversion]", "averages[fat2.Transaction.Conversion]"}
+			wantKeys := []string{"fat2.TypedAddressAmountTuple.Type", "fat2.TypedAddressAmountTuple.Type", "fat2.Transaction.Conversion", "fat2.Transaction.Conversion"}
 			var roots []ssa.Value
 			for i, w := range wantKeys {
-				if tp := typePath(a[2+i]); tp != w {
-					bad = append(bad, fmt.Sprintf("argument %d is %s, expected %s", 3+i, tp, w))
+				if tp := typePath(lks[i].Index); tp != w {
+					bad = append(bad, fmt.Sprintf("argument %d is keyed by %s, expected %s", 3+i, tp, w))
 				}
-				if lk, ok := a[2+i].(*ssa.Lookup); ok {
-					roots = append(roots, elemRoots(lk.Index)...)
-				}
+				roots = append(roots, elemRoots(lks[i].Index)...)
 			}
-			if tp := typePath(unwrapConv(a[1])); tp != "fat2.TypedAddressAmountTuple.Amount" {
-				bad = append(bad, "amount is "+tp+", expected the transaction's input amount")
+			rm, am := unwrap(lks[0].X), unwrap(lks[1].X)
+			if unwrap(lks[2].X) != rm || unwrap(lks[3].X) != am {
+				bad = append(bad, "source and destination are read from different maps")
+			}
+			ro, ao := mapOrigins(lks[0].X), mapOrigins(lks[1].X)
+			if strings.Contains(ro, "GetPegNetRateAverages") || strings.Contains(ro, "?") || ro == "" {
+				bad = append(bad, "the spot-rate arguments come from ["+ro+"]")
+			}
+			for _, o := range strings.Split(ao, ",") {
+				if o != "GetPegNetRateAverages" && o != "nil" {
+					bad = append(bad, "the average arguments come from ["+ao+"], expected GetPegNetRateAverages")
+				}
 			}
 			roots = append(roots, elemRoots(a[1])...)
 			for _, rt := range roots {
@@ -349,7 +407,106 @@ func propC07(c *Ctx, r *Report) {
 					break
 				}
 			}
-			r.check(len(bad) == 0, "C07-R6/convert-call-sites", cons, c.ipos(ci), "Convert(executing height, tx.Input.Amount, rates/averages[tx.Input.Type], rates/averages[tx.Conversion]) of one transaction", strings.Join(uniq(bad), "; "))
+			r.check(len(bad) == 0, "C07-R6/convert-call-sites", cons, c.ipos(ci), "Convert(executing height, tx.Input.Amount, rates/averages[tx.Input.Type], rates/averages[tx.Conversion]) of one transaction; rates from ["+ro+"], averages from ["+ao+"]", strings.Join(uniq(bad), "; "))
 		}
 	}
+}
+
+func ruleHoldingWindow(c *Ctx, r *Report, rule string) {
+	// R3 window and averages
+	r.rule(rule, 3, "held batches of [last rated height, current) with that height's averages")
+	hold := c.fn("node.Pegnetd.ApplyTransactionBatchesInHolding")
+	mr := findCalls(hold, "pegnet.Pegnet.SelectMostRecentRatesBeforeHeight")
+	if len(mr) != 1 {
+		r.viol(rule, "last rated height", c.pos(hold.Pos()), fmt.Sprintf("%d calls to SelectMostRecentRatesBeforeHeight", len(mr)))
+	} else {
+		call := mr[0].(*ssa.Call)
+		r.check(c.isExecHeight(call.Call.Args[3]), rule, "last rated height is searched below the executing height", c.ipos(call), "", "argument is "+c.describeOrigin(call.Call.Args[3]))
+		var hres ssa.Value
+		for _, rf := range *call.Referrers() {
+			if ex, ok := rf.(*ssa.Extract); ok && ex.Index == 1 {
+				hres = ex
+			}
+		}
+		for _, ci := range findCalls(hold, "node.Pegnetd.GetPegNetRateAverages") {
+			r.check(ci.Common().Args[2] == hres, rule, "averages computed for the last rated height", c.ipos(ci), "", "GetPegNetRateAverages is given another height")
+		}
+		for _, ci := range findCalls(hold, "pegnet.Pegnet.SelectTransactionBatchesInHoldingAtHeight") {
+			iv := unwrapConv(ci.Common().Args[1])
+			ph, _ := iv.(*ssa.Phi)
+			okk := false
+			if ph != nil {
+				init, step := false, false
+				for _, ed := range ph.Edges {
+					if ed == hres {
+						init = true
+					}
+					if bo, ok := ed.(*ssa.BinOp); ok && bo.Op.String() == "+" && bo.X == ph {
+						if k, ok := bo.Y.(*ssa.Const); ok && k.Int64() == 1 {
+							step = true
+						}
+					}
+				}
+				cond, _, _ := condEdge(ph.Block())
+				bound := false
+				if bo, ok := cond.(*ssa.BinOp); ok && bo.Op.String() == "<" && bo.X == ph && c.isExecHeight(bo.Y) {
+					bound = true
+				}
+				okk = init && step && bound
+			}
+			r.check(okk, rule, "holding scanned for i = lastRated; i < currentHeight; i++", c.ipos(ci), "", "the holding window is not [last rated height, currentHeight) stepped by 1")
+		}
+	}
+
+	// the "last rated height" is the newest pn_rate height below the executing one - no other table decides it
+	{
+		mrf := c.fn("pegnet.Pegnet.SelectMostRecentRatesBeforeHeight")
+		found := false
+		for _, st := range buildSQLCat(c).Stmts {
+			if st.Fn != mrf {
+				continue
+			}
+			found = true
+			tabs := strings.Join(tablesIn(st.Text), ",")
+			U := strings.ReplaceAll(strings.ToUpper(strings.Join(strings.Fields(st.Text), " ")), `"`, "")
+			okk := tabs == "pn_rate" && strings.Contains(U, "MAX(HEIGHT)") && strings.Contains(U, "HEIGHT < ?") && !st.Unres
+			r.check(okk, rule, "last rated height = MAX(height) of pn_rate below the executing height", c.ipos(st.Site), "tables: "+tabs, "the boundary of the holding window is read from ["+tabs+"] by `"+oneLine(st.Text)+"`: a block that has rates but no row there stops being a boundary, so already-considered held conversions are looked at again (or a rated block is skipped)")
+		}
+		if !found {
+			r.viol(rule, "statement of SelectMostRecentRatesBeforeHeight", c.pos(mrf.Pos()), "no SQL statement found in the function")
+		}
+	}
+
+}
+
+func ruleAveragesEraFree(c *Ctx, r *Report, rule string) {
+	// the averages do not depend on the era: the consumer (Convert) applies the PIP-10 gate with the executing height
+	r.rule(rule, 1, "GetPegNetRateAverages reads no activation constant")
+	{
+		g := c.fn("node.Pegnetd.GetPegNetRateAverages")
+		var bad []string
+		for f := range c.reach(g) {
+			if f != g && f.Parent() != g {
+				continue
+			}
+			allInstrs(f, func(ins ssa.Instruction) {
+				if u, ok := ins.(*ssa.UnOp); ok {
+					if gl, ok := u.X.(*ssa.Global); ok && gl.Pkg.Pkg.Name() == "config" {
+						bad = append(bad, fmt.Sprintf("%s reads config.%s at %s", fname(f), gl.Name(), c.ipos(ins)))
+					}
+				}
+			})
+		}
+		r.check(len(bad) == 0, rule, "GetPegNetRateAverages", c.pos(g.Pos()), "", strings.Join(bad, "; ")+": the averages are requested for the previous rated height while Convert gates PIP-10 on the executing height, so an era test inside the averages makes the first block after an activation see empty averages")
+	}
+
+}
+
+func sameConstOrValue(a, b ssa.Value) bool {
+	if a == b {
+		return true
+	}
+	ka, ok1 := a.(*ssa.Const)
+	kb, ok2 := b.(*ssa.Const)
+	return ok1 && ok2 && ka.Value != nil && kb.Value != nil && ka.Value.ExactString() == kb.Value.ExactString()
 }
